@@ -297,3 +297,197 @@ Lemma ex_flow_large_step :
   t_flow tr = kalman_grid TCorr TProp ex_times ex_sensors
                 (clip 1 (15#10) (merge_times ex_sensors)) (propagations tr) TInit.
 Proof. vm_compute. repeat split. Qed.
+
+(* ========================================================================= *)
+(*  Part B : the operations (MathComp)                                        *)
+(* ========================================================================= *)
+From mathcomp Require Import all_ssreflect all_algebra.
+From PV Require Import Spec.LibSpecsMx Spec.Gaussian Gen.Kalman Proofs.KalmanProofs.
+Set Implicit Arguments.
+Unset Strict Implicit.
+Import Order.Theory GRing.Theory Num.Theory.
+Local Open Scope ring_scope.
+
+(* ---------- (b) H_full = [H | 0 | 0] --------------------------------------- *)
+Section HFull.
+Variable F : fieldType.
+Variables ni ns m : nat.         (* ns = number of sensor-parameter states (gyro + accel) *)
+Variables (H : 'M[F]_(m, ni)) (R : 'M[F]_m) (P : 'M[F]_(ni + ns)) (x : 'cV[F]_(ni + ns)).
+
+(* the predicted measurement depends on the inertial block of the state only *)
+Lemma h_full_state : row_mx H 0 *m x = H *m usubmx x.
+Proof. by rewrite -{1}[x]vsubmxK mul_row_col mul0mx addr0. Qed.
+
+(* ... the innovation covariance on the inertial block of P only *)
+Lemma h_full_cov : row_mx H 0 *m P *m (row_mx H 0)^T = H *m ulsubmx P *m H^T.
+Proof.
+rewrite -{1}[P]submxK mul_row_block !mul0mx !addr0.
+by rewrite tr_row_mx trmx0 mul_row_col mulmx0 addr0.
+Qed.
+
+(* ... and the sensor parameters are corrected only through their cross-covariance
+   with the inertial states *)
+Lemma h_full_cross :
+  P *m (row_mx H 0)^T = col_mx (ulsubmx P *m H^T) (dlsubmx P *m H^T).
+Proof.
+rewrite -{1}[P]submxK tr_row_mx trmx0 mul_block_col !mulmx0 !addr0. by [].
+Qed.
+
+Lemma h_full_S : correct_S P (row_mx H 0) R = H *m ulsubmx P *m H^T + R.
+Proof. by rewrite correct_S_eq /innov_cov h_full_cov. Qed.
+End HFull.
+
+(* ---------- every correction is the conditional-Gaussian update ------------ *)
+Section FlowOps.
+Variable F : realFieldType.
+Variables ni ng na : nat.
+Local Notation n := (ni + (ng + na))%N.
+Variable mdim : nat -> nat.
+Variable zf : forall k : nat, Q -> 'cV[F]_(mdim k).
+Variable Hf : forall k : nat, Q -> 'M[F]_(mdim k, ni).
+Variable Rf : forall k : nat, 'M[F]_(mdim k).
+Variable chol : forall k : nat, 'M[F]_(mdim k) -> 'M[F]_(mdim k).
+Variables Phi Qd : nat -> nat -> 'M[F]_n.
+
+Hypothesis R_sym : forall k, (Rf k)^T = Rf k.
+Hypothesis R_pd : forall k, pd (Rf k).
+(* scipy.linalg.cholesky: a lower factor of every symmetric positive definite matrix *)
+Hypothesis chol_ok : forall k (S : 'M[F]_(mdim k)), S^T = S -> pd S -> cholesky_factor (@chol k) S.
+Hypothesis Qd_sym : forall i j, (Qd i j)^T = Qd i j.
+Hypothesis Qd_psd : forall i j, psd (Qd i j).
+
+Local Notation kc := (@k_corr F ni ng na mdim zf Hf Rf chol).
+Local Notation kcs := (@k_corr_spec F ni ng na mdim zf Hf Rf).
+Local Notation kp := (@k_prop F ni ng na Phi Qd).
+
+Lemma correct_S_sym (m' : nat) (P : 'M[F]_n) (H : 'M[F]_(m', n)) (R : 'M[F]_m') :
+  P^T = P -> R^T = R -> (correct_S P H R)^T = correct_S P H R.
+Proof. by move=> sP sR; rewrite correct_S_eq; apply: innov_cov_sym. Qed.
+
+Lemma k_corr_conditional k m t (s : kstate F ni ng na) :
+  cov_ok s -> cov_ok (kc k m t s) /\ kcs k m t s = kc k m t s.
+Proof.
+case=> sP pP.
+have cF : cholesky_factor (@chol k) (correct_S s.2 (@h_full F ni ng na mdim Hf k m) (Rf k)).
+  apply: chol_ok; first exact: correct_S_sym.
+  exact: correct_S_pd.
+have [e0 e1 _ _] := correct_is_conditional s.1 (zf k m) sP pP (R_sym k) (@R_pd k) cF.
+have [s1 p1 _] := correct_cov_properties sP pP (R_sym k) (@R_pd k) cF.
+by split; [split | rewrite /k_corr /k_corr_spec e0 e1].
+Qed.
+
+Lemma k_prop_ok i j (s : kstate F ni ng na) : cov_ok s -> cov_ok (kp i j s) /\ kp i j s = kp i j s.
+Proof.
+case=> sP pP; split=> //; split.
+- by rewrite /k_prop /= trmx_add !trmx_mul trmxK sP Qd_sym mulmxA.
+- by apply: psd_add (@Qd_psd i j); apply: psd_conj.
+Qed.
+
+(* for EVERY event trace: the fold of the generated code's operations is the fold of the
+   conditional-Gaussian updates of Spec/Gaussian.v, and every covariance that is recorded,
+   passed to kalman.correct or returned at the end is symmetric positive semidefinite *)
+Theorem kalman_flow_spec (tr : list event) (s0 : kstate F ni ng na) :
+  cov_ok s0 ->
+  [/\ cov_ok (ff_flow kc kp tr s0).1,
+      List.Forall (fun r => cov_ok r.2) (ff_flow kc kp tr s0).2
+    & ff_flow kcs kp tr s0 = ff_flow kc kp tr s0].
+Proof.
+move=> ok0.
+have [h1 [h2 h3]] := @ff_flow_inv _ kc kp (@cov_ok F ni ng na) kcs kp k_corr_conditional k_prop_ok tr s0 ok0.
+by split.
+Qed.
+End FlowOps.
+
+(* ---------- block layout of the assembly functions -------------------------- *)
+Section PsdBlocks.
+Variable F : realFieldType.
+
+Lemma psd_block_diag (m1 m2 : nat) (A : 'M[F]_m1) (B : 'M[F]_m2) :
+  psd A -> psd B -> psd (block_mx A 0 0 B).
+Proof.
+move=> pA pB x; rewrite -[x]vsubmxK tr_col_mx mul_row_block !mulmx0 addr0 add0r mul_row_col mxE.
+by rewrite addr_ge0 ?pA ?pB.
+Qed.
+
+Lemma sym_block_diag (m1 m2 : nat) (A : 'M[F]_m1) (B : 'M[F]_m2) :
+  A^T = A -> B^T = B -> (block_mx A 0 0 B)^T = block_mx A 0 0 B.
+Proof. by move=> sA sB; rewrite tr_block_mx !trmx0 sA sB. Qed.
+End PsdBlocks.
+
+Section AssemblyFacts.
+Variable F : realFieldType.
+Variables ni ng na vg va qg qa : nat.
+Variables (T : 'M[F]_(ni, 9)) (Ppva : 'M[F]_9) (Pg : 'M[F]_ng) (Pa : 'M[F]_na).
+Variables (Fii : 'M[F]_ni) (Fig Fia : 'M[F]_(ni, 3)).
+Variables (Hg : 'M[F]_(3, ng)) (Ha : 'M[F]_(3, na)).
+Variables (Fg : 'M[F]_ng) (Fa : 'M[F]_na).
+Variables (Jg : 'M[F]_(3, vg)) (Ja : 'M[F]_(3, va)).
+Variables (Gg : 'M[F]_(ng, qg)) (Ga : 'M[F]_(na, qa)).
+Variables (v_g : 'cV[F]_vg) (v_a : 'cV[F]_va) (q_g : 'cV[F]_qg) (q_a : 'cV[F]_qa).
+
+(* P0 = T P_pva T^T (+) P_gyro (+) P_accel : the four blocks, for every triple of sizes *)
+Lemma init_cov_blocks :
+  [/\ ulsubmx (init_cov T Ppva Pg Pa) = T *m Ppva *m T^T,
+      ursubmx (init_cov T Ppva Pg Pa) = 0,
+      dlsubmx (init_cov T Ppva Pg Pa) = 0
+    & drsubmx (init_cov T Ppva Pg Pa) = block_mx Pg 0 0 Pa].
+Proof. by rewrite /init_cov block_mxKul block_mxKur block_mxKdl block_mxKdr. Qed.
+
+(* the initial state (0, P0) satisfies the covariance invariant *)
+Lemma init_cov_ok :
+  Ppva^T = Ppva -> psd Ppva -> Pg^T = Pg -> psd Pg -> Pa^T = Pa -> psd Pa ->
+  (init_cov T Ppva Pg Pa)^T = init_cov T Ppva Pg Pa /\ psd (init_cov T Ppva Pg Pa).
+Proof.
+move=> sP pP sg pg sa pa; split.
+- apply: sym_block_diag; last exact: sym_block_diag.
+  by rewrite !trmx_mul trmxK sP mulmxA.
+- by apply: psd_block_diag; [apply: psd_conj | apply: psd_block_diag].
+Qed.
+
+(* F: rows (ins | gyro | accel) x columns (ins | gyro | accel) *)
+Lemma asm_F_blocks :
+  [/\ ulsubmx (asm_F Fii Fig Fia Hg Ha Fg Fa) = Fii,
+      ursubmx (asm_F Fii Fig Fia Hg Ha Fg Fa) = row_mx (Fig *m Hg) (Fia *m Ha),
+      dlsubmx (asm_F Fii Fig Fia Hg Ha Fg Fa) = 0
+    & drsubmx (asm_F Fii Fig Fia Hg Ha Fg Fa) = block_mx Fg 0 0 Fa].
+Proof. by rewrite /asm_F block_mxKul block_mxKur block_mxKdl block_mxKdr. Qed.
+
+(* the sensor parameters do not depend on the navigation errors and not on each other *)
+Lemma asm_F_rows :
+  dsubmx (asm_F Fii Fig Fia Hg Ha Fg Fa) = row_mx 0 (block_mx Fg 0 0 Fa).
+Proof. by rewrite /asm_F /block_mx col_mxKd. Qed.
+
+(* G: rows (ins | gyro | accel) x columns (gyro output noise | accel output noise | gyro noise | accel noise) *)
+Lemma asm_G_rows :
+  [/\ usubmx (asm_G Fig Fia Jg Ja Gg Ga) = row_mx (Fig *m Jg) (row_mx (Fia *m Ja) 0),
+      usubmx (dsubmx (asm_G Fig Fia Jg Ja Gg Ga)) = row_mx 0 (row_mx 0 (row_mx Gg 0))
+    & dsubmx (dsubmx (asm_G Fig Fia Jg Ja Gg Ga)) = row_mx 0 (row_mx 0 (row_mx 0 Ga))].
+Proof. by rewrite /asm_G col_mxKu col_mxKd col_mxKu col_mxKd. Qed.
+
+(* diag(q^2) of the stacked intensities is block diagonal *)
+Lemma diag_sq_col (k1 k2 : nat) (a : 'cV[F]_k1) (b : 'cV[F]_k2) :
+  diag_sq (col_mx a b) = block_mx (diag_sq a) 0 0 (diag_sq b).
+Proof.
+rewrite /diag_sq -diag_mx_row; congr diag_mx.
+apply/rowP=> j; rewrite !mxE; case: (splitP j) => j' _; by rewrite !mxE.
+Qed.
+
+(* Q = G diag(q^2) G^T is symmetric positive semidefinite for every choice of the blocks *)
+Lemma diag_sq_sym (k : nat) (u : 'cV[F]_k) : (diag_sq u)^T = diag_sq u.
+Proof. by rewrite /diag_sq tr_diag_mx. Qed.
+
+Lemma diag_sq_psd (k : nat) (u : 'cV[F]_k) : psd (diag_sq u).
+Proof.
+move=> x; rewrite /diag_sq mxE; apply: sumr_ge0 => j _.
+rewrite mul_mx_diag !mxE mulrAC -expr2.
+by apply: mulr_ge0; apply: sqr_ge0.
+Qed.
+
+Lemma asm_Q_ok :
+  (asm_Q Fig Fia Jg Ja Gg Ga v_g v_a q_g q_a)^T = asm_Q Fig Fia Jg Ja Gg Ga v_g v_a q_g q_a /\
+  psd (asm_Q Fig Fia Jg Ja Gg Ga v_g v_a q_g q_a).
+Proof.
+split; first by rewrite /asm_Q !trmx_mul trmxK diag_sq_sym mulmxA.
+exact/psd_conj/diag_sq_psd.
+Qed.
+End AssemblyFacts.
